@@ -18,5 +18,11 @@ with tempfile.TemporaryDirectory() as d:
             k = f.get("key") or f.get("name")
             cur = out[u].get(k, [0, 0])
             out[u][k] = [max(cur[0], f.get("closures_unspecified", 0)), max(cur[1], f.get("loops_unspecified", 0))]
+sys.path.insert(0, os.path.join(ROOT, "tools"))
+import remainder
+rem, rem_units, failed, lost = remainder.remainders(repo, cfg["units"])
+assert not failed and not lost, (failed, lost)
+out["__remainder__"] = rem
+out["__remainder_units__"] = {k: v for k, v in rem_units.items() if k in rem}
 json.dump(out, open(os.path.join(ROOT, "units", "baseline.json"), "w"), indent=0, sort_keys=True)
-print("recorded", sum(len(v) for v in out.values()), "functions")
+print("recorded", sum(len(v) for k, v in out.items() if not k.startswith("__")), "functions,", len(rem), "pinned remainders")
